@@ -497,8 +497,6 @@ class DAGRunConcurrentManager(DAGRunManagerLike):
         if len(list_node_ids) == 0:
             return None
 
-        local_tasks = []
-
         for node_id in list_node_ids:
 
             await self._lock_manager.wait_for_condition(
@@ -508,7 +506,10 @@ class DAGRunConcurrentManager(DAGRunManagerLike):
 
             if dag.is_oneof and self.__has_subgraph_error(dag):
                 logger.debug('An error has been found in the %s', dag)
-                self._stop_coro_tasks(*local_tasks)
+
+                # The nodes that have already been started must not be cancelled here: they may be needed by
+                # the next OneOf subgraph or by other nodes, and a cancelled node would stay marked as processed
+                # without any result. All remaining tasks are stopped at the end of the run.
 
                 # We must unlock descendants because the next OneOf subgraph should start the process.
                 # Otherwise, the entire subgraph will be locked.
@@ -538,7 +539,7 @@ class DAGRunConcurrentManager(DAGRunManagerLike):
                     dag=dag,
                 )
 
-            local_tasks.append(self._create_task(coro_to_run, name=node_id))
+            self._create_task(coro_to_run, name=node_id)
 
         logger.debug('Await for result for %s the dag %s', dag.dest, dag)
 
